@@ -602,6 +602,30 @@ JConst(ev, reg) ==
 JNumericDivide(ev, reg) ==
   IF DConst(reg[ev.args[2]].d) THEN "ok" ELSE ExpectRaise(ev, "FeatureNotSupported")
 
+\* ------------------------------------------------- C08 registry sweep: numpy spelling = numpoly spelling
+\* ev.res: what numpoly.f(args) returned; ev.np / ev.np_out: what numpy.f(args) (dispatched through the override
+\* protocol) returned for the same arguments.  Same type, shape, coefficient dtype, names and polynomial values.
+SameObs(r, w) ==
+  IF r.kind # w.kind THEN "type"
+  ELSE IF r.kind = "poly" THEN
+         IF r.shape # w.shape THEN "shape"
+         ELSE IF r.dtype # w.dtype THEN "dtype"
+         ELSE IF r.names # w.names THEN "names"
+         ELSE IF ~DenDefined(r) \/ ~DenDefined(w) THEN "ok"          \* malformed results are C03's to report
+         ELSE IF PolyDen(r).el # PolyDen(w).el THEN "value" ELSE "ok"
+  ELSE IF r.kind = "array" THEN
+         IF r.shape # w.shape THEN "shape"
+         ELSE IF r.dtype # w.dtype THEN "dtype"
+         ELSE IF r.vals # w.vals THEN "value" ELSE "ok"
+  ELSE IF r.kind \in {"text", "opaque"} THEN (IF r.text # w.text THEN "value" ELSE "ok")
+  ELSE "ok"
+JSpell(ev) ==
+  IF ev.np_out = "raise" /\ ev.out = "raise" THEN (IF ev.np[1].exc = ev.res[1].exc THEN "ok" ELSE "raised_differently")
+  ELSE IF ev.np_out = "raise" THEN "raised_numpy_only"
+  ELSE IF ev.out # "ret" THEN "raised"
+  ELSE IF Len(ev.res) # Len(ev.np) THEN "arity"
+  ELSE First([i \in 1..Len(ev.np) |-> SameObs(ev.res[i], ev.np[i])])
+
 \* ------------------------------------------------- C08 dispatch: unsupported numpy calls
 \* ev.registered: whether numpoly's registries (observed at trace time) map this function / ufunc / method
 JUnsupported(ev) ==
@@ -678,6 +702,7 @@ Own(ev, reg, opts, ctx) ==
     [] ev.act = "result_type" -> JResultType(ev, reg)
     [] ev.act = "logical" -> JLogical(ev, reg)
     [] ev.act = "unsupported" -> JUnsupported(ev)
+    [] ev.act = "spell" -> JSpell(ev)
     [] ev.act = "constfn" -> JConst(ev, reg)
     [] ev.act = "numdiv" -> JNumericDivide(ev, reg)
     [] ev.act = "text" -> JText(ev, reg, opts)
